@@ -3077,6 +3077,13 @@ class Engine:
             res = tV(V.ref(r))
         if desc.get("result_allocated", True) and kind == "V" and not desc.get("result_class") and not desc.get("fn"):
             ec.st.assume(z3.Implies(is_ref(res.t), z3.And(V.rv(res.t) >= 0, V.rv(res.t) < ec.st.heap.alloc)))
+        for g_name, a_idx in desc.get("logs", []):
+            # further ghost traces of the same call: (ghost list, argument index)
+            g = ec.st.env[g_name]
+            r = V.rv(g.t)
+            h = ec.st.heap
+            n = h.llen(r)
+            self.list_set_all(ec, r, n + 1, z3.Store(h.sel("lel", r), n, toV(args[a_idx])))
         if desc.get("log_result"):
             g = ec.st.env[desc["log_result"]]
             r = V.rv(g.t)
